@@ -915,6 +915,23 @@ func (x *bitCtx) checkOperators() {
 				}
 			}
 		}
+		if op.name != "Equal" && op.name != "Len" {
+			// the result is the caller's own bitmap: never a package-level value or one of the operands (a shared
+			// "empty" result would be changed for everybody by whoever sets a member in it)
+			for _, t := range traces {
+				if t.End != EndReturn || len(t.Ret) != 1 || !ok {
+					continue
+				}
+				r := t.Ret[0]
+				for r != nil && ((r.Kind == KOp && r.Name == "slice") || r.Kind == KInit || r.Kind == KConv) && len(r.Args) > 0 {
+					r = r.Args[0]
+				}
+				if r != nil && (r.Kind == KGlobal || r.Kind == KParam) {
+					ok = false
+					c.violated("C08.operators", "Bit1024."+op.name, fn.Pos(), "Bit1024."+op.name+" returns a bitmap that is not its own fresh allocation ("+c.short(t.Ret[0].Key())+"): results share storage, setting a member in one changes the others", c.witness(t, len(t.Events)-1)...)
+				}
+			}
+		}
 		if op.name != "Equal" {
 			for _, w := range strings.Split(op.leaf, "+") {
 				if !seenLeaf[w] {
